@@ -1,6 +1,7 @@
 mod common;
 mod dictutil;
 mod c01;
+mod c01py;
 mod c02;
 mod c03;
 mod c04;
